@@ -5,6 +5,7 @@ Exit codes: 0 held (maybe KNOWN-FINDING lines), 1 VIOLATION, 2 harness error.
 import hashlib
 import json
 import multiprocessing
+import logging
 import os
 import signal
 import sys
@@ -87,6 +88,28 @@ def with_noise(battery, name="battery_with_rejected_application_calls"):
                 for case in battery:
                     yield dict(case, noise_calls=[{"when": when, "do": kind}])
     return Enumeration(name, make, exhaustive=True)
+
+
+def with_debug_log(battery, name="battery_with_debug_logging_enabled"):
+    """Enumeration: each case of a small fixed battery while the application has DEBUG logging switched on for the
+    'lomond' logger (every record is formatted by a handler, so the arguments of every log call are evaluated)."""
+    def make():
+        for case in battery:
+            yield dict(case, debug_log=True)
+    return Enumeration(name, make, exhaustive=True)
+
+
+class _FormattingSink(logging.Handler):
+    """Formats every record (so %-arguments and their repr() are evaluated) and discards the text."""
+
+    def emit(self, record):
+        try:
+            self.format(record)
+        except Exception:       # a broken log call is not this harness's business
+            pass
+
+
+_SINK = _FormattingSink()
 
 
 def with_companion(battery, name="battery_with_a_second_live_connection"):
@@ -278,6 +301,7 @@ def guarded_run(prop, case):
     simnet.ON_RUN = lambda: signal.alarm(CASE_WALL_LIMIT)
     simnet.ON_BLOCKED = lambda: signal.alarm(20)
     spec = case.get("prelude") if isinstance(case, dict) else None
+    debug_log = None
     try:
         if spec:
             # an earlier connection in the same process precedes every simulated execution of this case
@@ -289,6 +313,12 @@ def guarded_run(prop, case):
         if isinstance(case, dict) and case.get("noise_calls"):
             simnet.CASE_NOISE = list(case["noise_calls"])
         del simnet.NOISE_PROBLEMS[:]
+        if isinstance(case, dict) and case.get("debug_log"):
+            # the application has switched on DEBUG logging for the library (documented way to see what it does)
+            lg = logging.getLogger("lomond")
+            debug_log = (lg, lg.level)
+            lg.addHandler(_SINK)
+            lg.setLevel(logging.DEBUG)
         cspec = case.get("companion") if isinstance(case, dict) else None
         if cspec:
             # a second live connection in the same process accompanies every simulated execution of this case
@@ -300,6 +330,8 @@ def guarded_run(prop, case):
             res.labels.add("application_tried_unsendable_calls")
         if cspec and isinstance(res.labels, set):
             res.labels.add("with_second_live_connection:" + cspec.get("mode", "interleaved"))
+        if debug_log and isinstance(res.labels, set):
+            res.labels.add("debug_logging_enabled")
         if simnet.BUG_LOG:
             # an error inside the simulation, whatever the client under test made of it
             raise boot.HarnessError("simulation error: %s (case %s)" % (simnet.BUG_LOG[0], canon(case)[:400]))
@@ -313,6 +345,9 @@ def guarded_run(prop, case):
         simnet.CASE_COMPANION = None
         simnet.CASE_COPTS = None
         simnet.CASE_NOISE = None
+        if debug_log:
+            debug_log[0].removeHandler(_SINK)
+            debug_log[0].setLevel(debug_log[1])
         signal.alarm(0)
 
 
